@@ -49,7 +49,7 @@ impl Property for C14 {
          oracle = two-map model (id -> constraint, id -> removal reason) + reference evaluator; invariant checked after every step; non-trivial = history with a successful relax followed by a restore of the same id and at least one failing operation; distinct = sha256(instance, history)"
     }
     fn required_labels(&self) -> Vec<String> {
-        ["restore-ok", "relax-ok", "relax-unknown", "relax-removed-id", "restore-active-id", "restore-unknown", "flag-changes", "eval-step", "relax-then-restore-same-id", "eval-samples-step", "placed-inside-tolerance", "reason-ends-with-newline", "sweep=many-constraints"].iter().map(|s| s.to_string()).collect()
+        ["restore-ok", "relax-ok", "relax-unknown", "relax-removed-id", "restore-active-id", "restore-unknown", "flag-changes", "eval-step", "relax-then-restore-same-id", "eval-samples-step", "placed-inside-tolerance", "reason-ends-with-newline", "sweep=many-constraints", "partial-evaluate-in-the-middle-of-the-history"].iter().map(|s| s.to_string()).collect()
     }
     fn sweep_len(&self, _tier: Tier) -> usize {
         4
@@ -404,6 +404,66 @@ impl Property for C14 {
         }
         if relax_restore && had_fail {
             ctx.nontrivial();
+        }
+        // A call of ANOTHER kind in the middle of the history: one used variable is fixed by partial_evaluate after the
+        // first k relax / restore operations (copy B) or before all of them (copy A). Relaxing and restoring only moves
+        // constraints, so both copies must evaluate alike on the remaining variables: same per-constraint values, same
+        // overall feasibility (the statement's "consequently"), whatever list a constraint was in when the variable was fixed.
+        if let (Some(v), false) = (gi.used_pool.first().copied(), states.is_empty()) {
+            let st = &states[0];
+            if let Some(val) = st.entries.get(&v).copied() {
+                let moves: Vec<&Op> = ops.iter().filter(|o| matches!(o, Op::Relax(..) | Op::Restore(..))).collect();
+                if !moves.is_empty() {
+                    let k = (place[0] as usize * (moves.len() + 1)) >> 8;
+                    let apply = |i: &mut v1::Instance, o: &Op| match o {
+                        Op::Relax(id, reason, params) => {
+                            let _ = i.relax_constraint(*id, reason.clone(), params.iter().map(|(k, v)| (k.clone(), v.clone())).collect());
+                        }
+                        Op::Restore(id) => {
+                            let _ = i.restore_constraint(*id);
+                        }
+                        _ => {}
+                    };
+                    let fix = crate::mk::state([(v, val)]);
+                    let mut a = gi.inst.clone();
+                    let mut b = gi.inst.clone();
+                    let ra = a.partial_evaluate(&fix);
+                    for o in &moves {
+                        apply(&mut a, o);
+                    }
+                    for o in &moves[..k] {
+                        apply(&mut b, o);
+                    }
+                    let rb = b.partial_evaluate(&fix);
+                    for o in &moves[k..] {
+                        apply(&mut b, o);
+                    }
+                    if ra.is_ok() && rb.is_ok() {
+                        ctx.label("partial-evaluate-in-the-middle-of-the-history");
+                        let mut rest = st.clone();
+                        rest.entries.remove(&v);
+                        let msg = |m: String| format!("{m}\n variable {v} fixed at {val} before the history (A) or after its first {k} moves (B); history {:?}\n initial instance {}", ops, describe_inst(&gi.inst));
+                        match (a.evaluate(&rest), b.evaluate(&rest)) {
+                            (Err(_), Err(_)) => {}
+                            (Ok(_), Err(e)) => return fail("C14/mixed-history/eval-err", msg(format!("copy A evaluates, copy B fails: {e:#}"))),
+                            (Err(e), Ok(_)) => return fail("C14/mixed-history/eval-err", msg(format!("copy B evaluates, copy A fails: {e:#}"))),
+                            (Ok((sa, _)), Ok((sb, _))) => {
+                                let close = |x: f64, y: f64| (x - y).abs() <= 1e-9 * (1.0 + x.abs().max(y.abs()));
+                                let va: BTreeMap<u64, f64> = sa.evaluated_constraints.iter().map(|c| (c.id, c.evaluated_value)).collect();
+                                let vb: BTreeMap<u64, f64> = sb.evaluated_constraints.iter().map(|c| (c.id, c.evaluated_value)).collect();
+                                if va.len() != vb.len() || va.iter().any(|(k, x)| vb.get(k).map(|y| !close(*x, *y)).unwrap_or(true)) {
+                                    return fail("C14/mixed-history/values", msg(format!("per-constraint values differ: {va:?} vs {vb:?}")));
+                                }
+                                // feasibility only where no value sits at the tolerance
+                                let clear = va.values().all(|x| (x.abs() - 1e-6).abs() > 1e-8);
+                                if clear && sa.feasible != sb.feasible {
+                                    return fail("C14/mixed-history/feasible", msg(format!("overall feasibility differs: {} vs {}", sa.feasible, sb.feasible)));
+                                }
+                            }
+                        }
+                    }
+                }
+            }
         }
         Ok(())
     }
